@@ -124,12 +124,53 @@ def run(ctx):
                         {"schema_xml": F.render_xml(sd), "sequence": [{"op": "import", "lines": lines, "outcome": out[:2]}],
                          "subtypes_after": cfgrun.subtypes_table(real)},
                         signature="C13:digest:abstract-implementers-grow-after-import")
+        _mutable_defaults(ctx)
         _directed(ctx, pk)
     finally:
         pk.close()
     return core.finish(ctx, obligations, discharged, names, RULE,
                        "lake build ZCV.Props.C13 && lake env lean ZCV/Audit/C13.lean",
                        ["digest = harness/zcv/schemafam.py:digest (types, children, key/attribute maps, defaults, implementers, components)"])
+
+
+def _mutable_defaults(ctx):
+    """directed: schema defaults whose converted value is a mutable object (string-list: a list) on every kind of item that can
+    carry defaults - key, multikey, keyed defaults of '+' key and '+' multikey, at top level and in section types; the text
+    leaves them all to their defaults, the application edits what it got, the next load must give what a fresh schema gives"""
+    import io
+    import ZConfig
+    xml = ("<schema>"
+           "<sectiontype name='st1'><key name='single' datatype='string-list' default='s t'/>"
+           "<multikey name='mk' datatype='string-list'><default>a b</default><default>c</default></multikey>"
+           "<key name='+' attribute='m' datatype='string-list'><default key='x'>p q</default><default key='y'>r</default></key></sectiontype>"
+           "<sectiontype name='st2'><multikey name='+' attribute='mm' datatype='string-list'><default key='x'>u v</default><default key='x'>w</default></multikey></sectiontype>"
+           "<key name='single' datatype='string-list' default='s t'/>"
+           "<multikey name='mk' datatype='string-list'><default>a b</default><default>c</default></multikey>"
+           "<key name='+' attribute='m' datatype='string-list'><default key='x'>p q</default></key>"
+           "<section type='st1' name='*' attribute='s1'/><multisection type='st2' name='*' attribute='s2'/>"
+           "</schema>")
+    texts = ["<st1/>\n<st2/>\n<st2/>\n", "<st1>\n</st1>\n", "", "<st1/>\n<st2/>\n<st2/>\n", "mk z\n<st1>\n mk z\n</st1>\n", "<st1/>\n<st2/>\n"]
+    real = ZConfig.loadSchemaFile(io.StringIO(xml))
+    d0 = sdigest(real)
+    seq = []
+    for i, text in enumerate(texts):
+        out, cfg, _ = cfgrun.real_load(real, text, cfgstream.URL)
+        outf, cfgf, _ = cfgrun.real_load(ZConfig.loadSchemaFile(io.StringIO(xml)), text, cfgstream.URL)
+        ctx.evaluations += 1
+        ctx.nontriv(("mutable-defaults", i))
+        seq.append({"op": "load", "text": text, "outcome": out[:3]})
+        if out[0] != outf[0] or (out[0] == "ok" and cfgrun.describe(cfg) != cfgrun.describe(cfgf)):
+            ctx.violate("load %d gives %s on the reused schema and %s on a fresh one (defaults with mutable values, results edited in between)"
+                        % (i + 1, cfgrun.describe(cfg) if cfg is not None else out[:3], cfgrun.describe(cfgf) if cfgf is not None else outf[:3]),
+                        {"schema_xml": xml, "sequence": seq}, signature="C13:outcome-depends-on-history:mutable-defaults")
+            return
+        if cfg is not None:
+            ctx.count("mutated-containers", mutate(cfg))
+            seq.append({"op": "mutated the returned configuration"})
+        if sdigest(real) != d0:
+            ctx.violate("the schema's own description changed after %d operations (defaults with mutable values)" % len(seq),
+                        {"schema_xml": xml, "sequence": seq}, signature="C13:digest:changed")
+            return
 
 
 def _only_subtypes_differ(a, b):
